@@ -118,10 +118,23 @@ func (Engine) Execute(planJSON json.RawMessage, scratch string) (res sim.RunResu
 			s.call(CBarrier, Op{K: "Listen"})
 			s.settle()
 		}
+		if p.CrashMax > 0 && !p.NoOracle {
+			s.crash = newCrasher(s)
+			simrt.SetIOHook(s.crash.ioHook)
+		}
 		s.or.start()
+		simrt.ArmIO(s.crash != nil)
 		s.runSchedule()
+		simrt.ArmIO(false)
 		if res.Viol == nil && res.Infra == "" {
 			s.or.final()
+		}
+		if s.crash != nil && res.Viol == nil && res.Infra == "" {
+			s.call(CView, Op{K: "DropViews"})
+			s.call(CBarrier, Op{K: "Close"})
+			s.alive = false
+			s.killJobs()
+			s.crash.restartAll()
 		}
 		s.shutdown()
 	}()
